@@ -11,8 +11,20 @@ REPO = "/repo"
 WT = "/tmp/seedchk"
 
 
-def sh(cmd, **kw):
-    return subprocess.run(cmd, shell=True, capture_output=True, text=True, **kw)
+def sh(cmd, timeout=None, **kw):
+    """like subprocess.run(shell=True, capture_output=True) but a timeout kills the whole process group (checks start harnesses)"""
+    import signal
+    p = subprocess.Popen(cmd, shell=True, stdout=subprocess.PIPE, stderr=subprocess.PIPE, text=True, start_new_session=True, **kw)
+    try:
+        out, err = p.communicate(timeout=timeout)
+    except subprocess.TimeoutExpired:
+        try:
+            os.killpg(p.pid, signal.SIGKILL)
+        except OSError:
+            pass
+        out, err = p.communicate()
+        return subprocess.CompletedProcess(cmd, -9, out, (err or "") + "\n[seedtest] killed after %s s" % timeout)
+    return subprocess.CompletedProcess(cmd, p.returncode, out, err)
 
 
 def ensure_wt():
